@@ -673,7 +673,7 @@ func c08EncodingTable(c *Ctx) {
 			if !ok || bo.Op != token.EQL {
 				return
 			}
-			if bo.X != toParam && !(f != fn && throughParam(c, bo.X) == toParam) {
+			if !paramReaches(c, bo.X, toParam) {
 				return
 			}
 			k, isS := constString(bo.Y)
